@@ -18,7 +18,19 @@ notes={"C04-a":"C06 (after the `ch_outer_sni_changed` retry variant was added; C
  "C11-d":"C11 (after configs whose cipher_suites vector is cut inside a suite were added)",
  "C13-d":"C13 (after IPv4-mapped addresses were generated for AAAA and ipv6hint)",
  "C14-d":"C14 (after boundary lengths were added: scheme of 62/63, label of 63/64, name of 253/254)",
- "C16-d":"C16 (after the virtual clock got sub-second offsets and advances)"}
+ "C16-d":"C16 (after the virtual clock got sub-second offsets and advances)",
+ "C01-e":"C01 (after the public-name server got curve preferences of its own, so that a stale-config handshake may go through a HelloRetryRequest)",
+ "C02-e":"C02 (after length-consistent structural alterations were added: bytes appended inside the ECH extension, extension added/removed/grown/swapped, suite / session id / compression changed)",
+ "C04-e":"C04 (after the type-`inner` outer hello was also sent without TLS 1.3 on offer)",
+ "C05-e":"C05 (after mixed-case host names were generated; C03 inner names too)",
+ "C06-e":"C06 (after the `blocked` stage was added: the reader is already inside Read when the backend's answer is written)",
+ "C07-e":"C07 (after the reads of a second, unrelated accepted connection were interleaved)",
+ "C10-e":"C10 (after a HelloRetryRequest round was added to the I/O performed after the context ended)",
+ "C11-e":"C11 (after the length-field perturbation with the metamorphic over-read oracle was added)",
+ "C13-e":"C13 (after question names in absolute form, with a trailing dot, were generated)",
+ "C15-e":"C15 (after one iter.Seq value was ranged over again after an early stop)",
+ "C18-e":"C18 (after the behaviour `rejected with retry configs, then succeed/fail/hang on the retry` was added)",
+ "C19-e":"C19 (after the request given to RoundTrip was compared before and after the call)"}
 rows=["| Seed | Breaks | Change (summary) | Needs to manifest | Caught by (quick tier) |","|---|---|---|---|---|"]
 for d in sorted(glob.glob('/verif/seeded/*/meta.json')):
     m=json.load(open(d)); sid=m['seed_id']
@@ -34,6 +46,6 @@ end=s.rindex("\n",0,end)+1
 s=s[:start]+"\n".join(rows)+"\n\n"+s[end:]
 import re
 s=re.sub(r"\w+ rounds of sub-agents produced \d+ distinct confirmed changes \(duplicates of an\nearlier idea were dropped\)\. \w+ of them were missed by the version of the\nchecks that existed when they arrived and led to the strengthenings named in\nthe last column; all \d+ are now reported by the quick tier at `VERIF_SEED=1`\.",
- f"Four rounds of sub-agents produced {n} distinct confirmed changes (duplicates of an\nearlier idea were dropped). {len(notes)} of them were missed by the version of the\nchecks that existed when they arrived and led to the strengthenings named in\nthe last column; all {n} are now reported by the quick tier at `VERIF_SEED=1`.", s)
+ f"Five rounds of sub-agents produced {n} distinct confirmed changes (duplicates of an\nearlier idea were dropped). {len(notes)} of them were missed by the version of the\nchecks that existed when they arrived and led to the strengthenings named in\nthe last column; all {n} are now reported by the quick tier at `VERIF_SEED=1`.", s)
 open('/verif/DESIGN.md','w').write(s)
 print(n, len(notes))
